@@ -31,6 +31,7 @@ struct GenOpts
     bool allow_dists = true;
     bool allow_zero_calls = true;
     bool allow_degenerate = true;   // identically zero / constant integrands
+    bool allow_high_dims = false;
     int nt = -1;
 };
 
